@@ -4,7 +4,7 @@ import importlib, json, os, sys
 sys.path.insert(0, os.path.dirname(os.path.abspath(__file__)))
 import py2lean
 
-MODULES = ["targets_leaves", "targets_comb", "targets_bisect", "targets_misc"]
+MODULES = ["targets_leaves", "targets_comb", "targets_bisect", "targets_misc", "targets_dist"]
 
 def main(repo="/repo", outdir=None):
     here = os.path.dirname(os.path.abspath(__file__))
